@@ -378,6 +378,20 @@ class Check:
         self.assumptions = []
         self.distinct = set()
         self.kf = [f for f in known_findings().get("findings", []) if f.get("property") == prop]
+        # source text of this property's files differs from the text last validated at the thorough tier:
+        # the quick tier runs the thorough campaign (tools/fingerprint.py); evidence keeps the requested tier
+        self.requested_tier = tier
+        try:
+            import fingerprint
+            ch = fingerprint.changed(prop)
+            if ch:
+                self.cov["source_text_changed_since_validation"] = ch
+                if tier == "quick" and fingerprint.escalate(prop) and not os.environ.get("VERIF_NO_ESCALATION"):
+                    self.tier = "thorough"
+                    self.cov["escalated_to_thorough_campaign"] = True
+                    log("[%s] source text changed since the last thorough validation (%s): the quick tier runs the thorough campaign" % (prop, ", ".join(ch)[:200]))
+        except Exception as e:             # the fingerprint is an aid, never a reason to fail
+            log("[%s] fingerprint unavailable: %r" % (prop, e))
 
     # -- bookkeeping
     def count(self, case_text, nontrivial=True):
@@ -423,7 +437,7 @@ class Check:
         if self.cov.get("discharged", 0) < 1 or self.cov.get("obligations", 0) < 1:
             # the proof did not check on this run: do not present proof-level keys (schema: discharged >= 1)
             self.cov["proof_broken"] = {"obligations": self.cov.pop("obligations", 0), "discharged": self.cov.pop("discharged", 0)}
-        ev = {"property_id": self.prop, "tier": self.tier, "seed": self.seed, "level": level,
+        ev = {"property_id": self.prop, "tier": self.requested_tier, "seed": self.seed, "level": level,
               "coverage": self.cov, "assumptions": self.assumptions,
               "wall_s": round(time.time() - self.t0, 2), "violations": len(self.violations),
               "known_findings_hit": self.known_hits}
